@@ -23,6 +23,12 @@ func VerifC19_TwoCreations() {
 		verifAssume(c0 == 0)
 	}
 	contentA := []types.Content{{Digest: "digest-a", DigestAlgo: "sha256", URI: "uri", Meta: "meta"}}
+	switch verifChoice("firstShape", 3) {
+	case 1: // the same digest published at a second location
+		contentA = append(contentA, types.Content{Digest: "digest-a", DigestAlgo: "sha256", URI: "mirror", Meta: "meta"})
+	case 2: // a byte-identical entry repeated, and a different one
+		contentA = append(contentA, contentA[0], types.Content{Digest: "digest-c", DigestAlgo: "sha256", URI: "uri", Meta: "meta"})
+	}
 	contentB := []types.Content{{Digest: "digest-b", DigestAlgo: "sha256", URI: "uri", Meta: "meta"}}
 	second := contentA
 	same := verifChoice("sameContents", 2) == 0
@@ -41,7 +47,7 @@ func VerifC19_TwoCreations() {
 	verifAssert(err1 == nil, "record creation succeeds")
 	id1, _ := hex.DecodeString(r1.Id)
 	got1, found1 := k.GetRecord(e.ctx, id1)
-	verifAssert(found1 && len(got1.Contents) == 1 && got1.Contents[0] == contentA[0] && got1.Creator == creator.String(), "record reads back as submitted")
+	verifAssert(found1 && verifDeepEqual(got1.Contents, contentA) && got1.Creator == creator.String(), "record reads back exactly as submitted")
 	verifAssert(k.GetIntraTxCounter(e.ctx) == c0+1, "counter advances by one")
 	r2, err2 := srv.CreateRecord(e.ctx.WithTxBytes(tx2), msg2)
 	verifAssert(err2 == nil, "second creation succeeds")
@@ -53,8 +59,8 @@ func VerifC19_TwoCreations() {
 	}
 	verifAssert(!bytes.Equal(id1, id2), "two creations never receive the same id")
 	got1b, found1b := k.GetRecord(e.ctx, id1)
-	verifAssert(found1b && got1b.TxHash == got1.TxHash && got1b.Contents[0] == contentA[0] && got1b.Creator == creator.String(), "the first record is unchanged by the second creation")
+	verifAssert(found1b && got1b.TxHash == got1.TxHash && verifDeepEqual(got1b.Contents, contentA) && got1b.Creator == creator.String(), "the first record is unchanged by the second creation")
 	got2, found2 := k.GetRecord(e.ctx, id2)
-	verifAssert(found2 && got2.Contents[0] == second[0] && got2.Creator == creator.String(), "second record reads back as submitted")
+	verifAssert(found2 && verifDeepEqual(got2.Contents, second) && got2.Creator == creator.String(), "second record reads back exactly as submitted")
 	verifAssert(k.GetIntraTxCounter(e.ctx) == c0+2, "counter advances by one per record")
 }
